@@ -203,6 +203,19 @@ class A(object):
 class S(A): pass
 ARGS = ((1,), {'b': 5})
 ''',
+    # instances that compare and hash equal (value objects, frozen dataclasses): whatever is remembered per instance
+    # must be remembered by identity, or one instance's bound copy is handed to the other
+    'modifier-method-value-equal': '''
+from sigtools import modifiers
+class A(object):
+    def __eq__(self, other): return isinstance(other, A)
+    def __ne__(self, other): return not isinstance(other, A)
+    def __hash__(self): return 7
+    @modifiers.kwoargs('b')
+    def m(self, a, b=2): return (self, a, b)
+class S(A): pass
+ARGS = ((1,), {'b': 5})
+''',
     'posoargs-autokwoargs-method': '''
 from sigtools import modifiers
 class A(object):
@@ -322,7 +335,9 @@ TARGETED = [['A1', 'C1', 'A1', 'A2'], ['A2', 'C1', 'A1', 'R1', 'I1'], ['B1', 'D'
             ['R1', 'D', 'RS', 'R1', 'RC'], ['B1', 'D', 'C1', 'R1'], ['B1', 'F1', 'D', 'R1', 'R2'], ['I1', 'D', 'I1', 'X1', 'R2'],
             # a lookup through the CLASS between the bindings on two instances, then the re-decoration
             ['B1', 'RC', 'B2', 'D', 'R2', 'R1'], ['RC', 'B1', 'B2', 'D', 'R1', 'R2'], ['B1', 'B2', 'RC', 'D', 'R2', 'R1', 'RC'],
-            ['R1', 'RC', 'B2', 'D', 'D', 'R2']]
+            ['R1', 'RC', 'B2', 'D', 'D', 'R2'],
+            # two instances alive at once, each bound and called after the other was
+            ['B1', 'B2', 'C2', 'C1'], ['C1', 'C2', 'B2', 'B1'], ['B1', 'C2', 'B2', 'C1', 'X1', 'C2'], ['R1', 'B2', 'C2', 'N1', 'C1', 'C2']]
 
 
 _PRISTINE = {}
